@@ -10,6 +10,7 @@ RULE = ('one record per operation history on hash contexts (update, update_mut, 
 ASSUMPTIONS = ['same reference hashes as C01']
 FLOORS = {'evaluations': 8000, 'distinct': 4000}
 THOROUGH_ROUNDS = 8   # thorough tier: generator passes with derived seeds (runner.gen_rounds)
+EXTRA_CFGS = ['f32']   # the workload is also executed by the force-32bits build of the library; results must not change (runner.standard_check)
 
 FIXED = ['sha1', 'sha224', 'sha256', 'sha384', 'sha512', 'sha512_224', 'sha512_256', 'sha3_224', 'sha3_256', 'sha3_384', 'sha3_512',
          'keccak224', 'keccak256', 'keccak384', 'keccak512', 'ripemd160']
@@ -17,10 +18,10 @@ FIXED = ['sha1', 'sha224', 'sha256', 'sha384', 'sha512', 'sha512_224', 'sha512_2
 
 def variants(rng):
     vs = [(v, o.BLOCK[v], False) for v in FIXED]
-    for bits in (8, 160, 224, 256, 384, 504, 512):
+    for bits in (8, 160, 224, 256, 384, 504, 512, 9, 250, 505):        # incl. sizes that are not whole bytes (digest length = ceil(bits / 8))
         vs.append(('b2bt/%d/-' % bits, 128, True))
         vs.append(('b2bt/%d/%s' % (bits, rng.data(rng.choice([1, 16, 64]))), 128, True))
-    for bits in (8, 128, 224, 248, 256):
+    for bits in (8, 128, 224, 248, 256, 9, 100, 250):
         vs.append(('b2st/%d/-' % bits, 64, True))
         vs.append(('b2st/%d/%s' % (bits, rng.data(rng.choice([1, 16, 32]))), 64, True))
     for ol in (1, 20, 32, 64):
